@@ -323,7 +323,7 @@ fn assume_encodable(s: &Settings) {
     });
 }
 
-// vp: props=C13,C14,C06; tag=C13.encode; kind=complete; tier=quick
+// vp: props=C13,C14,C06; tag=C13.encode; kind=complete; tier=thorough
 // encode, any list of 0..=8 pairs with ids / values < 2^62: the frame is
 //   varint(0x04) varint(L) varint(id_0) varint(v_0) ... varint(id_{len-1}) varint(v_{len-1})
 // each in shortest form (== spec_varint_enc), nothing else, L == number of bytes after the Length field
@@ -368,7 +368,7 @@ fn encode_to_array(s: &Settings) -> ([u8; 40], usize) {
     (arr, written)
 }
 
-// vp: props=C13,C14; tag=C13.encode.wire; kind=bounded; bound=2 entries; tier=quick
+// vp: props=C13,C14; tag=C13.encode.wire; kind=bounded; bound=2 entries; tier=thorough
 // the same through the real `&mut [u8]` sink for lists of <= 2 arbitrary pairs: an independent SETTINGS
 // parser reads back exactly the stored pairs in order, all varints shortest form, Length exact.
 // (The 5/6-entry lists h3 really sends are checked this way, unbounded in the values, in config.rs.)
@@ -447,19 +447,19 @@ fn check_decode(arr: &[u8], len: usize) {
     }
 }
 
-// vp: props=C13,C06; tag=C13.decode; kind=bounded; bound=5 bytes; tier=quick
-// decode on every payload of <= 5 bytes == the wire-order SETTINGS receiver of the spec library:
+// vp: props=C13,C06; tag=C13.decode; kind=bounded; bound=4 bytes; tier=quick
+// decode on every payload of <= 4 bytes == the wire-order SETTINGS receiver of the spec library:
 // Ok <=> whole number of (varint, varint) pairs, no HTTP/2-reserved id, no understood id twice; then the
 // stored list == the understood pairs in wire order, unknown ids ignored, everything consumed;
 // truncated => Malformed; reserved => InvalidSettingId(id); repeat => Repeated(id); no panic.
 #[kani::proof]
-#[kani::unwind(5)]
-fn c13_decode_short_5() {
-    let arr: [u8; 5] = kani::any();
+#[kani::unwind(4)]
+fn c13_decode_short_4() {
+    let arr: [u8; 4] = kani::any();
     let len: usize = kani::any();
-    kani::assume(len <= 5);
+    kani::assume(len <= 4);
     check_decode(&arr, len);
-    kani::cover!(len == 5 && arr[0] == 0xab); // a 4-byte id + 1-byte value
+    kani::cover!(len == 4 && arr[0] == 0x40 && arr[1] == 0x06 && arr[2] == 0x40); // non-minimal id and value
     kani::cover!(len == 4 && arr[0] == 0x06 && arr[2] == 0x06); // repeat
     kani::cover!(len == 3 && arr[0] == 0x21); // unknown id, then a truncated pair
     kani::cover!(len == 2 && arr[0] == 0x04); // reserved
